@@ -243,7 +243,16 @@ func (x *opFunction) Sprint(depth int) (out string) {
 	paramsAsStrings := []string{}
 
 	for _, p := range x.Params {
-		paramsAsStrings = append(paramsAsStrings, p.String())
+		// a path or group argument is printed from its structure like everything else: what the user typed
+		// (String) has lost the blanks that kept its tokens apart
+		switch t := p.(type) {
+		case *FP_Path:
+			paramsAsStrings = append(paramsAsStrings, t.Value.Sprint(0))
+		case *FP_LogicalOperation:
+			paramsAsStrings = append(paramsAsStrings, t.Value.Sprint(0))
+		default:
+			paramsAsStrings = append(paramsAsStrings, p.String())
+		}
 	}
 
 	return fmt.Sprintf("%s(%s)", ft_GetName(x.FunctionType), strings.Join(paramsAsStrings, ","))
